@@ -545,3 +545,59 @@ def boolchain_programs(max_n: int, max_paren_n: int) -> Iterator[Tuple[str, str]
         for e in chain_exprs(n, parens=n <= max_paren_n):
             for cname, tmpl in XC_CARRIERS.items():
                 yield f"XC{n}/{cname}/{e}", tmpl.replace("{E}", e)
+
+
+# ---------------------------------------------------------------------------------------
+# BIG: a few large programs - long sequences and deep nests.  "Any size" cannot be enumerated, but cost that grows with size
+# (a recursion per block, a quadratic scan) only shows on inputs that are actually large.
+
+def big_sources(tier: str = "quick"):
+    k = 1 if tier == "quick" else 2
+    out = {}
+    n = 40 * k
+    out[f"seq_if_{n}"] = "def f(a):\n" + "".join(f"    if t({i}):\n        c({i})\n" for i in range(n)) + "    return c(9999)\n"
+    n = 25 * k
+    out[f"seq_while_{n}"] = "def f(a):\n" + "".join(f"    while t({i}):\n        c({i})\n" for i in range(n)) + "    return c(9999)\n"
+    n = 25 * k
+    s = "def f(a):\n"
+    for i in range(n):
+        s += "    " * (i + 1) + f"if t({i}):\n"
+    s += "    " * (n + 1) + "c(1)\n    return c(9999)\n"
+    out[f"nest_if_{n}"] = s
+    n = 8 * k
+    s = "def f(a):\n"
+    for i in range(n):
+        s += "    " * (i + 1) + (f"while t({i}):\n" if i % 2 == 0 else f"for x{i} in it({i}):\n")
+    s += "    " * (n + 1) + "if t(77):\n" + "    " * (n + 2) + "break\n" + "    " * (n + 1) + "c(1)\n    return c(9999)\n"
+    out[f"nest_loops_{n}"] = s
+    n = 15 * k
+    out[f"elif_chain_{n}"] = "def f(a):\n    if t(0):\n        return c(0)\n" + "".join(
+        f"    elif t({i}):\n        return c({i})\n" for i in range(1, n)) + "    return c(9999)\n"
+    n = 12 * k
+    out[f"loop_many_exits_{n}"] = "def f(a):\n    while t(0):\n" + "".join(
+        f"        if t({i}):\n            return c({i})\n" for i in range(1, n)) + "        c(500)\n    return c(9999)\n"
+    return out
+
+
+def big_graphs(tier: str = "quick"):
+    """Closed CFGs of the big programs as produced by BOTH front ends."""
+    from .families import canonical, is_closed
+    out, seen = [], set()
+    for name, src in big_sources(tier).items():
+        cands = [source_cfg(src)]
+        try:
+            from numba_scfg.core.datastructures.byte_flow import ByteFlow
+            ns = {}
+            exec(compile(src, "<big>", "exec"), ns)
+            scfg = ByteFlow.from_bytecode(ns["f"]).scfg
+            cands.append({n: tuple(b._jump_targets) for n, b in scfg.graph.items()})
+        except Exception:  # noqa: BLE001
+            pass
+        for g in cands:
+            if g is None or any(t not in g for r in g.values() for t in r):
+                continue
+            c = canonical(g, "0" if "0" in g else None)
+            if c is not None and is_closed(c) and c not in seen:
+                seen.add(c)
+                out.append(c)
+    return out
